@@ -121,6 +121,24 @@ func replayDriver(r *run, o *fovc.Obligation, model string) *replayResult {
 			}
 			return ""
 		}},
+		{"a byte the tokenizer has no rule for (panic with a non-string value)", func(dir string) []string {
+			os.WriteFile(filepath.Join(dir, "x.fo"), []byte("package main\n\n# not folang\nlet f () = 1\n"), 0o644)
+			return []string{"x.fo"}
+		}, func(dir string, fr fcRun) string {
+			if fr.exit == 0 || isFile(filepath.Join(dir, "gen_x.go")) || !strings.Contains(fr.out, "x.fo:") {
+				return fmt.Sprintf("unknown byte: exit %d, gen_x.go written: %v, diagnostic naming the file printed: %v (C16: otherwise it exits non-zero after printing a diagnostic)", fr.exit, isFile(filepath.Join(dir, "gen_x.go")), strings.Contains(fr.out, "x.fo:"))
+			}
+			return ""
+		}},
+		{"file ending in an integer literal without newline", func(dir string) []string {
+			os.WriteFile(filepath.Join(dir, "x.fo"), []byte("package main\n\nlet x = 12"), 0o644)
+			return []string{"x.fo"}
+		}, func(dir string, fr fcRun) string {
+			if fr.timeout {
+				return "fc hangs (no exit within 10s) on a file that ends in an integer literal"
+			}
+			return ""
+		}},
 		{".foi argument", func(dir string) []string {
 			os.WriteFile(filepath.Join(dir, "p.foi"), []byte("package_info buf =\n  type Buffer\n"), 0o644)
 			return []string{"p.foi"}
